@@ -832,11 +832,11 @@ func init() {
 			// transition system by the driver; the real code runs each several times under different
 			// schedule modes and the states its traces visit are compared with the explored space
 			tiny := c02TinyPlans()
-			reps := 24
+			reps := 30
 			if !g.Thorough() {
-				// a seed-dependent sample of 150 plans
+				// a seed-dependent sample of 200 plans
 				var pick []string
-				for len(pick) < 150 {
+				for len(pick) < 200 {
 					pick = append(pick, tiny[g.R.Intn(len(tiny))])
 				}
 				tiny = pick
@@ -849,7 +849,7 @@ func init() {
 					g.Emit(fmt.Sprintf("%s,S%d,D%d,M0,T1 %s", t[:strings.Index(t, " ")], g.R.Intn(1<<30), []int{0, 4, 3, 5, 2, 1, 4, 0}[r%8], t[strings.Index(t, " ")+1:]))
 				}
 			}
-			n := 1000
+			n := 2000
 			if g.Thorough() {
 				n = 12000
 			}
